@@ -118,7 +118,7 @@ class PySnmpCodeGen(IntermediateCodeGen):
             for key, value in tuple(dct.items()):
                 if isinstance(value, dict):
                     translateOids(value)
-                elif key == 'oid':
+                elif key == 'oid' and isinstance(value, str):
                     dct[key] = tuple(int(x) for x in value.split('.'))
 
         translateOids(context)
